@@ -745,3 +745,80 @@ func (u *Unit) isParam(v *types.Var) bool {
 	}
 	return false
 }
+
+func methodConst(u *Unit, name string) Term {
+	n := "m_" + identSan.ReplaceAllString(name, "_")
+	u.D.Once("const:"+n, fmt.Sprintf("(declare-const %s Fn)", n))
+	u.methodConsts[n] = true
+	return Term{n, SFn}
+}
+
+// "opt dispatch=<Iface>:<mode>;..." (or one mode for all): force = dispatch even when the interface method has its own
+// contract; off = treat the interface as opaque (in effectful mode: one event of kind 2 per call)
+func (u *Unit) dispatchMode(iname string) string {
+	if u.Block == nil {
+		return ""
+	}
+	opt := u.Block.Opts["dispatch"]
+	if opt == "" {
+		return ""
+	}
+	def := ""
+	for _, ent := range strings.Split(opt, ";") {
+		ent = strings.TrimSpace(ent)
+		if k := strings.Index(ent, ":"); k >= 0 {
+			if ent[:k] == iname {
+				return ent[k+1:]
+			}
+		} else {
+			def = ent
+		}
+	}
+	return def
+}
+
+// an opaque call through an interface declared in the repository, in effectful mode: arbitrary results, one event of kind 2
+// (tr_recv = receiver, tr_fn = method identity, tr_arg/tr_args = arguments, tr_res/tr_ress = results)
+func (u *Unit) opaqueIfaceEvent(c *ast.CallExpr, se *ast.SelectorExpr, iname string, m *types.Func, recv Value, args []Value, env *Env) []Outcome {
+	sig := m.Type().(*types.Signature)
+	u.safety(env, "nil", c.Pos(), u.exprText(se.X)+" (interface method call)", Not(u.untyped(recv.Term)))
+	var vals []Value
+	errv := Term{}
+	for i := 0; i < sig.Results().Len(); i++ {
+		rt := sig.Results().At(i).Type()
+		v := u.D.Fresh("ifres_"+m.Name(), u.sortOf(rt))
+		u.typeInvariant(env, v, rt)
+		if v.Sort == SErr {
+			errv = v
+		}
+		vals = append(vals, Value{v, rt})
+	}
+	boxT := func(v Value) Term {
+		if v.Sort == SVal {
+			return v.Term
+		}
+		return u.box(v).Term
+	}
+	arg := Term{"nil_Val", SVal}
+	if len(args) > 0 {
+		arg = boxT(args[0])
+	}
+	res0 := Term{}
+	if len(vals) > 0 {
+		res0 = boxT(vals[0])
+	}
+	at0 := u.trace(env).n
+	u.emitRes(env, 2, methodConst(u, iname+"."+m.Name()), arg, recv.Term, errv, res0)
+	row := func(vs []Value) Term {
+		r := u.D.Fresh("trrow", ArrS(SInt, SVal))
+		for k, v := range vs {
+			env.assume(Same(Select(r, IntLit(int64(k))), boxT(v)))
+		}
+		return r
+	}
+	env.tr.args = u.define(env, "trargs", Store(env.tr.args, at0, row(args)))
+	env.tr.ress = u.define(env, "trress", Store(env.tr.ress, at0, row(vals)))
+	u.callbackHavoc(env)
+	u.assumeUsed("implementations of " + iname + " act on library objects only through exported methods")
+	return ret(env, vals...)
+}
